@@ -23,7 +23,7 @@ func HandleGasError
 // ---- RequiredGas (called by vm.runPrecompiledContract BEFORE Run, with the raw call data)
 // flat cost + per-byte cost of the argument bytes, write costs for a transaction and read costs for a query.
 // Precondition from the call sites (RequiredGas of staking / distribution / ics20): they have sliced `input[:4]` before - see
-// FINDING AA1 there: nothing guarantees four bytes of call data at THEIR call site
+// finding AA1 (fixed) there: nothing guaranteed four bytes of call data at THEIR call site
 func (Precompile).RequiredGas
     requires four: len(input) >= 4
     // Go invariant: a length is an int
@@ -34,10 +34,12 @@ func (Precompile).RequiredGas
 // ---- method selection
 // empty call data: `receive` when value is attached and the ABI has one, else `fallback` when the ABI has one, else revert
 func (Precompile).emptyCallData
-    requires wf: contract != nil && contract.value != nil
-    ensures receive: *contract.value > 0 && p.ABI.Receive.Type == 2 ==> result.1 == nil && result.0 != nil && *result.0 == p.ABI.Receive
-    ensures fallback: !(*contract.value > 0 && p.ABI.Receive.Type == 2) && p.ABI.Fallback.Type == 1 ==> result.1 == nil && result.0 != nil && *result.0 == p.ABI.Fallback
-    ensures revert: !(*contract.value > 0 && p.ABI.Receive.Type == 2) && p.ABI.Fallback.Type != 1 ==> result.1 != nil && result.0 == nil
+    // a DELEGATECALL frame carries no value (contract.value == nil): treated as no value attached (finding AA2, fixed)
+    requires wf: contract != nil
+    let valued = contract.value != nil && *contract.value > 0
+    ensures receive: valued && p.ABI.Receive.Type == 2 ==> result.1 == nil && result.0 != nil && *result.0 == p.ABI.Receive
+    ensures fallback: !(valued && p.ABI.Receive.Type == 2) && p.ABI.Fallback.Type == 1 ==> result.1 == nil && result.0 != nil && *result.0 == p.ABI.Fallback
+    ensures revert: !(valued && p.ABI.Receive.Type == 2) && p.ABI.Fallback.Type != 1 ==> result.1 != nil && result.0 == nil
 
 // 1..3 bytes of call data: `fallback` when the ABI has one, else revert
 func (Precompile).methodIDCallData
